@@ -46,6 +46,10 @@ PROPS["C04"] = coop("TestProp", "two parts. (a) queues: rapid-generated enqueue/
                     extra_parts=[seq("TestC04Queues", quick=(4, 2500), thorough=(16, 20000), fuzz={"targets": ["FuzzC04Queues"], "time": "60s", "timeout": 400})])
 PROPS["C04"]["assumptions"] = PROPS["C04"]["assumptions"] + ["queue part: reference models (slice, stable sort by (priority, arrival)) are correct"]
 # the FIFO/priority queue types' Len() is what every pending count is made of: the differential queue test (length compared with the model after every step, incl. exactly full and drained segments) is also a part of C17
+# C01 quantifies over bursts larger than the FIFO queue's buffer segments: the differential queue test (every dequeued value compared with the slice model,
+# nothing lost, duplicated or invented across exactly-full / drained / rewound segments) is also a part of C01 (added after seeded/C01-enqueue-rewinds-full-write-chunk)
+PROPS["C01"]["extra_parts"] = [seq("TestC04Queues", quick=(4, 3000), thorough=(16, 10000))]
+PROPS["C01"]["assumptions"] = PROPS["C01"]["assumptions"] + ["queue part: reference models (slice, stable sort by (priority, arrival)) are correct"]
 PROPS["C17"]["extra_parts"] = [seq("TestC04Queues", quick=(4, 3000), thorough=(16, 10000))]
 PROPS["C17"]["assumptions"] = PROPS["C17"]["assumptions"] + ["queue part: reference models (slice, stable sort by (priority, arrival)) are correct"]
 
